@@ -748,12 +748,14 @@ func c01Pipeline(c *Ctx, r *Result) {
 		}
 		notSuppressed := func(at ssa.Instruction, elem ssa.Value) bool {
 			for v := range FactsAt(at).FalseV {
-				e, ok := v.(*ssa.Extract)
-				if !ok || e.Index != 1 {
-					continue
+				var lk *ssa.Lookup
+				if e, ok := v.(*ssa.Extract); ok && e.Index == 1 {
+					lk, _ = e.Tuple.(*ssa.Lookup)
+				} else if l, ok := v.(*ssa.Lookup); ok && !l.CommaOk {
+					// the bool value itself: only `true` is ever stored (checked below for every update)
+					lk = l
 				}
-				lk, ok := e.Tuple.(*ssa.Lookup)
-				if !ok {
+				if lk == nil {
 					continue
 				}
 				kl, ok := lk.Index.(*ssa.UnOp)
@@ -825,6 +827,10 @@ func c01Pipeline(c *Ctx, r *Result) {
 				return
 			}
 			nSup++
+			if cv, isC := mu.Value.(*ssa.Const); !isC || cv.Value == nil || cv.Value.String() != "true" {
+				fail("suppression-value", "a value other than true is stored in the suppression set", c.Pos(c.InstrPos(in)))
+				ok = false
+			}
 			// key = element of <cand>.SuppressionList
 			ks := elemOfSlice(mu.Key)
 			good := false
